@@ -5,6 +5,10 @@
 //            `run [--oracle <file>]` reads op lines from stdin, executes them against the
 //            real code, writes exactly one result line per op line to stdout and one
 //            `ORACLE case=<n> line=<k> <message>` line per direct-oracle failure to the oracle file.
+//  - generator crash protocol: a generator that EXECUTES what it generates may die in the real code.  In gen mode
+//    harnessMain installs fatal handlers (SIGABRT/SIGSEGV/…, the sanitizers' death callback) that flush stdout and
+//    append the op line registered with `vh::genPending(line)` (unless the engine already wrote it), so that the
+//    partial op file ends with the line in progress and the crash reproduces, shrinks and replays in `run` mode.
 #ifndef VERIF_VH_H
 #define VERIF_VH_H
 
@@ -16,6 +20,7 @@
 #include <vector>
 #include <sstream>
 #include <iostream>
+#include <signal.h>
 
 namespace vh {
 
@@ -83,6 +88,30 @@ inline void oracleFail(const std::string & msg)
    fflush(f);
 }
 
+// ---- generator crash protocol -----------------------------------------------------------------
+static bool g_genMode = false;
+static std::string g_genPendingLine;
+// the op line about to be executed by the generator itself (not yet written to stdout); "" = nothing pending
+inline void genPending(const std::string & line) {if (g_genMode) g_genPendingLine = line;}
+inline void genPendingClear() {g_genPendingLine.clear();}
+inline void genFatalFlush()
+{
+   static bool once = false;
+   if ((!g_genMode)||(once)) return;
+   once = true;
+   fflush(stdout);   // lines already emitted (an engine that writes a line before executing it is covered by this alone)
+   if (!g_genPendingLine.empty()) {fputs(g_genPendingLine.c_str(), stdout); fputc('\n', stdout); fflush(stdout);}
+}
+inline void genFatalSignal(int sig) {genFatalFlush(); signal(sig, SIG_DFL); raise(sig);}
+extern "C" void __sanitizer_set_death_callback(void (*cb)(void)) __attribute__((weak));
+inline void genInstallFatalHandlers()
+{
+   g_genMode = true;
+   signal(SIGABRT, genFatalSignal);
+   if (__sanitizer_set_death_callback) __sanitizer_set_death_callback(genFatalFlush);   // ASan/UBSan report first, then call this
+   else {signal(SIGSEGV, genFatalSignal); signal(SIGBUS, genFatalSignal); signal(SIGFPE, genFatalSignal); signal(SIGILL, genFatalSignal);}
+}
+
 // ---- engine interface -------------------------------------------------------------------------
 struct Engine
 {
@@ -101,7 +130,9 @@ inline int harnessMain(int argc, char ** argv, Engine & e)
       t.shard   = (argc > 4) ? (uint32_t)atoi(argv[4]) : 0;
       t.nshards = (argc > 5) ? (uint32_t)atoi(argv[5]) : 1;
       Rng rng(seed*1000003ULL + t.shard*7919ULL + (t.thorough?17:0));
+      genInstallFatalHandlers();
       e.gen(rng, t, stdout);
+      fflush(stdout);
       return 0;
    }
    if ((argc >= 2)&&(strcmp(argv[1], "run") == 0))
